@@ -649,6 +649,10 @@ func init() {
 	}
 	intrinsics["os.Getenv"] = func(fr *frame, args []value) value { return "" }
 	intrinsics["runtime.Gosched"] = nop
+	// GODEBUG settings: the default (empty) value everywhere
+	intrinsics["(*internal/godebug.Setting).Value"] = func(fr *frame, args []value) value { return "" }
+	intrinsics["(*internal/godebug.Setting).IncNonDefault"] = nop
+	intrinsics["(*internal/godebug.Setting).Name"] = func(fr *frame, args []value) value { return "" }
 	// func clone(m any) any (linknamed to the runtime): a shallow copy of the map, nil stays nil
 	intrinsics["maps.clone"] = func(fr *frame, args []value) value {
 		it := args[0].(iface)
